@@ -8,7 +8,7 @@ from vf.monitors import capture, describe
 from vf.ref import logic
 
 from ahbicht.expressions.condition_expression_parser import parse_condition_expression_to_tree
-from ahbicht.expressions.format_constraint_expression_evaluation import evaluate_format_constraint_tree
+from ahbicht.expressions.format_constraint_expression_evaluation import evaluate_format_constraint_tree, format_constraint_evaluation
 from ahbicht.models.condition_nodes import EvaluatedFormatConstraint
 
 
@@ -86,6 +86,32 @@ async def check_expression(ctx, case):
             ctx.violation("message-presence", f"format_constraint_evaluation({s!r}) under {fa} ({'explicit' if explicit else 'default'} messages): fulfilled={expected}, error_message={aout[1].error_message!r}", case=wcase)
 
 
+async def check_shipped(ctx, case):
+    """format_constraint_evaluation through the library's own dictionary / ContentEvaluationResult based evaluators; with and without messages"""
+    ast, s = case["ast"], case["s"]
+    ctx.set_case("shipped", case)
+    keys = G.keys_of(ast, "fc")
+    for _ in range(2):
+        fa = {k: ctx.rng.random() < 0.5 for k in keys}
+        with_messages = ctx.rng.random() < 0.5
+        cer = E.make_cer({}, fa, {}, fc_msg={k: f"E{k}" for k in keys} if with_messages else None)
+        expected = logic.ast_bool(ast, fa)
+        for mode in ("hardcoded", "cer"):
+            ctx.evaluation()
+            ctx.count("evaluations_with_shipped_evaluators")
+            out = await H.with_shipped_evaluators(mode, cer, lambda: format_constraint_evaluation(s))
+            wcase = dict(case, assignments=[fa])
+            if out[0] != "ok":
+                ctx.violation(f"fc-evaluation-raises-{type(out[1]).__name__}", f"format_constraint_evaluation({s!r}) with the {mode} evaluators under {fa} {describe(out)[:300]}", case=wcase)
+                return
+            if out[1].format_constraints_fulfilled is not expected:
+                ctx.violation("boolean-value", f"format_constraint_evaluation({s!r}) with the {mode} evaluators ({'with' if with_messages else 'without'} messages) under {fa} = {out[1].format_constraints_fulfilled!r}, Boolean value is {expected}", case=wcase)
+                return
+            if with_messages and (out[1].error_message is not None) != (not expected):
+                ctx.violation("message-presence", f"format_constraint_evaluation({s!r}) with the {mode} evaluators under {fa}: fulfilled={expected}, error_message={out[1].error_message!r}", case=wcase)
+                return
+
+
 async def run(ctx):
     rng = ctx.rng
     E.install()
@@ -106,6 +132,8 @@ async def run(ctx):
         if len(G.keys_of(ast, "fc")) > 7:
             continue
         await check_expression(ctx, case)
+        if i % 3 == 0:
+            await check_shipped(ctx, case)
         if i % 250 == 0:
             ctx.sample({"s": case["s"]}, cls="expression")
 
@@ -116,5 +144,7 @@ async def replay(ctx, phase, case):
         aout = await H.async_format(case["fce"], E.World("c08"), text="x")
         if aout[0] != "ok" or aout[1].format_constraints_fulfilled is not True or aout[1].error_message is not None:
             ctx.violation("empty-expression", f"format_constraint_evaluation({case['fce']!r}) {describe(aout)[:200]}", phase=phase, case=case)
+    elif phase == "shipped":
+        await check_shipped(ctx, case)
     else:
         await check_expression(ctx, case)
